@@ -1,7 +1,10 @@
-\* C23 thorough: 3 managed names + 1 unmanaged, all entry kinds, <=1 faulty desired entry
+\* C23 thorough: 3 managed names (model values, symmetric) + 1 unmanaged, all entry kinds, <=1 faulty desired entry
 SPECIFICATION Spec
 CONSTANTS
-  Managed = {"m1", "m2", "m3"}
+  m1 = m1
+  m2 = m2
+  m3 = m3
+  Managed = {m1, m2, m3}
   Unmanaged = {"u1"}
   Contents = {"a", "b"}
   Perms = {"644", "600"}
@@ -10,6 +13,7 @@ CONSTANTS
   UnmanagedTok = {"none", "f:a:644", "f:b:600", "ndir"}
   DesExtra = {}
   MaxBad = 1
+SYMMETRY SymManaged
 INVARIANTS TypeOK Post NeverTouchUnmanaged EraseForgets
 PROPERTY StepInSucc
 CHECK_DEADLOCK FALSE
